@@ -308,6 +308,7 @@ func c15(c *Ctx) {
 	for _, px := range pxs {
 		c15Dial(c, px)
 		c15Readers(c, px, valid)
+		c15NoOverread(c, px)
 		c15Relay(c, px)
 		c15Events(c, px)
 		c15HalfClose(c, px)
